@@ -12,6 +12,7 @@ UNITS = {
     "int_encoders": {"template": "contracts/int_encoders.vrs", "rlimit": 30},
     "conditions_parse": {"template": "contracts/conditions_parse.vrs", "rlimit": 60},
     "costs": {"template": "contracts/costs.vrs", "rlimit": 30},
+    "merkle_set": {"template": "contracts/merkle_set.vrs", "rlimit": 60},
     "tree_hash": {"template": "contracts/tree_hash.vrs", "rlimit": 60},
     "streamable_core": {"template": "contracts/streamable_core.vrs", "rlimit": 60},
     "streamable_derived": {"generator": {"crates": ("chia-protocol",)}, "rlimit": 60},
@@ -162,6 +163,20 @@ PROPS["C17"] = {
     "not_covered": [
         "tree_hash_cached and the TreeCache invariant across calls (history quantifier)",
         "tree_hash_from_bytes (rests on node_from_bytes_backrefs), curry_tree_hash (iter().rev() is outside Verus's subset), curry_and_treehash",
+    ],
+}
+
+PROPS["C12"] = {
+    "level": "proof",
+    "technique": "Verus contracts on the real merkle_set.rs (get_bit, encode_type, hash, radix_sort with its partition loop and recursive sub-slice calls, compute_merkle_set_root) against a trie specification defined over the *set* of leaves",
+    "level_text": "Deductive proof for every slice of 32-byte leaves (any length < 2^31, any order, with duplicates, shared prefixes down to bit 255): compute_merkle_set_root equals root_spec(set of leaves), where root_spec is the collapsed binary-trie hash written from the statement; because the spec is a function of the set, order and duplicates cannot matter. Includes index safety, i32 arithmetic, termination (256 - depth) and unreachability of the panic!.",
+    "level_note": "sha256 uninterpreted (Sha256 ghost model). The second root computation (merkle_tree.rs MerkleSet::from_leafs), proof generation and proof validation soundness are not under contract yet (not_covered).",
+    "components": [V("merkle_set")],
+    "assumptions": ["Sha256 ghost model, sha256 uninterpreted", "<[T]>::swap, u8::from(bool) std contracts", "Verus's model of `&mut range[..k]` sub-slice borrows"],
+    "not_covered": [
+        "merkle_tree.rs: MerkleSet::from_leafs/get_root agreement with compute_merkle_set_root",
+        "generate_proof completeness and validate_merkle_proof soundness (needs ideal_hash axiom and the proof-deserialisation stack machine)",
+        "Python bindings (wheel/src/api.rs)",
     ],
 }
 
